@@ -52,6 +52,15 @@ def render_file(f, fmt):
     return sep.join(h) + "\n" + body
 
 
+BLOCK_FLAGS = {"csvlite": ["--icsvlite"], "pprint": ["--ipprint"]}
+
+
+def render_block_file(bf, fmt):
+    """blocks separated by one blank line, each with its header line"""
+    sep = "," if fmt == "csvlite" else " "
+    return "\n".join(sep.join(b["header"]) + "\n" + "".join(sep.join(r) + "\n" for r in b["rows"]) for b in bf)
+
+
 FMT_FLAGS = {
     "dkvp": ["--ifs", "tab"], "csv": ["--icsv"], "tsv": ["--itsv"], "csvlite": ["--icsvlite"],
     "csv-implicit": ["--icsv", "--implicit-csv-header"], "tsv-implicit": ["--itsv", "--implicit-tsv-header"],
@@ -109,6 +118,23 @@ def run(tier, seed):
                 argv = [mlr] + FMT_FLAGS[fmt] + OUT_FLAGS + ["--records-per-batch", str(b), "put", PROGRAM] + names
                 cases.append({"argv": argv, "files": fmap, "timeout_ms": 10000})
                 meta.append({"t": "files", "files": files, "names": names, "implicit": fmt.endswith("implicit"), "fmt": fmt, "b": b})
+
+    # ---- A3. files of several header blocks (schema change inside a file: CSV-lite and PPRINT), every small batch size,
+    # so that the blank line and the new header fall on both sides of every batch boundary
+    bl, g = b3.gen_cases("ReaderGen", {"MaxLen": 2, "MaxFiles": 3, "Family": '"blocks"'})
+    states += g.distinct
+    bl = sorted(bl, key=lambda x: json.dumps(x, sort_keys=True))
+    if not thorough:
+        bl = [x for k, x in enumerate(bl) if (k + seed) % 6 == 0 or len(x["files"]) == 1]
+    for k, x in enumerate(bl):
+        bfiles = x["files"]
+        for fmt in ("csvlite", "pprint"):
+            for b in ([1, 2, 3, 4, 5, 500] if (thorough or len(bfiles) == 1) else [[1, 2, 3, 4, 5, 500][k % 6], 1]):
+                names = ["f%d.%s" % (i + 1, fmt) for i in range(len(bfiles))]
+                fmap = {n: render_block_file(bf, fmt) for n, bf in zip(names, bfiles)}
+                argv = [mlr] + BLOCK_FLAGS[fmt] + OUT_FLAGS + ["--records-per-batch", str(b), "put", PROGRAM] + names
+                cases.append({"argv": argv, "files": fmap, "timeout_ms": 10000})
+                meta.append({"t": "blocks", "files": bfiles, "names": names, "implicit": False, "fmt": fmt, "b": b, "source": "blocks"})
 
     # ---- A2. where the context variables are consulted: under a pattern, downstream of a filter, downstream of tac ----
     ul, g = b3.gen_cases("ReaderGen", {"MaxLen": 2, "MaxFiles": 3, "Family": '"uses"'})
@@ -235,9 +261,9 @@ def run(tier, seed):
         if rr["timed_out"]:
             V.violation({"why": "hang", "t": m["t"]}, {"case": cases[i].get("argv") or cases[i].get("shell")})
             continue
-        if m["t"] == "files":
+        if m["t"] in ("files", "blocks"):
             out, endnr = parse_tab_dkvp(rr["stdout"])
-            obs.append({"t": "files", "files": m["files"], "names": m["names"], "implicit": m["implicit"], "out": out, "endnr": endnr,
+            obs.append({"t": m["t"], "files": m["files"], "names": m["names"], "implicit": m["implicit"], "out": out, "endnr": endnr,
                         "use": m.get("use", {"mode": "every", "sel": "all"}),
                         "exit": rr["exit"], "cs": [], "s": [], "piped": []})
         else:
@@ -254,7 +280,7 @@ def run(tier, seed):
     for idx, p in bad:
         i = omap[idx]
         m, o = meta[i], obs[idx]
-        if m["t"] == "files":
+        if m["t"] in ("files", "blocks"):
             V.violation({"why": p["why"], "fmt": m["fmt"], "source": m.get("source", "files"), "nfiles": len(m["files"])},
                         {"argv": (cases[i].get("argv") or [None])[1:], "shell": cases[i].get("shell"), "files": m["files"], "observed": o["out"][:6],
                          "endnr": o["endnr"], "exit": o["exit"], "stderr": res[i]["stderr"][:400]})
